@@ -126,14 +126,13 @@ class MetricReceiver(CarbonServerProtocol, TimeoutMixin):
       log.listener("%s connection with %s established" % (
         self.__class__.__name__, self.peerName))
 
-    if state.metricReceiversPaused:
-      self.pauseReceiving()
-
     state.connectedMetricReceiverProtocols.add(self)
     checkIfAcceptingConnections()
     if settings.USE_FLOW_CONTROL:
       events.pauseReceivingMetrics.addHandler(self.pauseReceiving)
       events.resumeReceivingMetrics.addHandler(self.resumeReceiving)
+      if state.metricReceiversPaused:
+        self.pauseReceiving()
 
   def getPeerName(self):
     if hasattr(self.transport, 'getPeer'):
